@@ -22,15 +22,32 @@ var apis = []string{
 }
 
 func init() {
-	req := []string{"further_next_calls_after_exhaustion", "callback_rejections", "outside_domain_cases_seen(not judged)", "aux_values_checked"}
+	req := []string{"further_next_calls_after_exhaustion", "callback_rejections", "outside_domain_cases_seen(not judged)", "aux_values_checked",
+		// sessions (session.go): one caller slice for several iterators, several iterators alive at once
+		"argument_unchanged_checks(after the constructor and after every Next)", "held_value_checks(value of an iterator compared after other iterators were advanced)",
+		"shared_argument_sessions:sequential", "shared_argument_sessions:built-first", "shared_argument_sessions:interleaved",
+		"shared_argument_sessions_by_order_of_sizes:increasing", "shared_argument_sessions_by_order_of_sizes:decreasing", "shared_argument_sessions_by_order_of_sizes:alternating", "shared_argument_sessions_by_order_of_sizes:seeded",
+		"shared_argument_iterators:MultisetCombinations", "shared_argument_iterators:MultisetPermutations", "shared_argument_iterators:Product", "shared_argument_iterators:RestrictedPrefixProduct",
+		"sessions:built-first", "sessions:interleaved",
+		// parameter magnitudes (huge.go)
+		"huge_family_prefix_cases_with_cardinality_a_multiple_of_2^64:Product", "huge_family_prefix_cases_with_cardinality_mod_2^64_below_the_prefix_length:Product",
+		"huge_family_prefix_cases_with_cardinality_a_multiple_of_2^32:Product", "huge_family_prefix_cases_with_cardinality_mod_2^32_below_the_prefix_length:Product",
+		"huge_family_prefix_cases_with_cardinality_in[2^63,2^64):Product",
+		"huge_family_prefix_cases_with_cardinality_a_multiple_of_2^64:RestrictedPrefixProduct", "huge_family_prefix_cases_with_cardinality_mod_2^64_below_the_prefix_length:RestrictedPrefixProduct",
+		"huge_products_restricted_to_a_small_family_and_drained", "empty_products_with_huge_factors", "huge_multiplicities_small_size_cases(drained)",
+	}
 	for _, a := range apis {
-		req = append(req, "cases:"+a)
+		req = append(req, "cases:"+a, "huge_family_prefix_cases:"+a, "huge_family_prefix_cases_with_cardinality>=2^64:"+a)
 	}
 	engine.Register(&engine.Property{
 		ID:    "C15",
 		Level: "exploration",
 		Rule: "every constructor of itertools on ALL parameters up to the tier bound (n <= 8 quick / 9 thorough; k = 0..n+3; all multiplicity / factor vectors of length <= 4 (<= 6 for small sums) with the given sum, zeros and repeats included; " +
 			"extended ranges for the cheap families; large-n-small-output cases with 63..130 (Combinations: 1000) positions / values whose families have at most a few ten thousand objects, and the first few thousand objects of families too large to exhaust), predicate-driven iterators with a fixed table of predicates plus seeded hash predicates on the prefix contents and fixed plus seeded sub-orders of 0<1<...<n-1. " +
+			"Sessions: ONE caller-owned argument slice (a window of a larger array) is handed to a sequence of constructors - MultisetCombinations(m,k) for all k = 0..sum+1 in increasing, decreasing, alternating and seeded order for every multiplicity vector of length <= 4 and sum <= 5 (6 thorough), seeded longer vectors, 65/130 entries, multiplicities of 2^62; MultisetPermutations, Product, RestrictedPrefixProduct from the same slice - " +
+			"with the iterators run sequentially, built first and then drained, and interleaved one Next each; the slice (and the array around it) is compared with what the caller put there after the constructor and after every Next, every iterator is judged against the family of the caller's values, and a value handed out by an iterator must still be the same after other iterators were advanced; the constructors without slice argument run in interleaved sessions too. " +
+			"Parameter magnitudes: for EVERY constructor families with more than 2^31 / 2^32 / 2^63 / 2^64 objects (cardinalities computed with big integers: multiples of 2^32 and 2^64, values that wrap to less than the prefix length modulo 2^32 / 2^64, values between 2^63 and 2^64; factor sizes and n up to MaxInt, 62..200 factors, permutations of 13..130 elements, Partitions up to n = 100, IntegerPartitions up to n = 3000) " +
+			"are judged on their first 300 (1500 thorough) objects: exact comparison with an independently generated prefix where the order is documented, otherwise distinct members of the family and no exhaustion (Product against its twin RestrictedPrefixProduct under the always-true predicate; the order seen is recorded); huge parameters with a small family (multiplicities >= 2^31 with k <= 5, an empty factor next to factors of 2^32, 64..100 factors under predicates that keep few tuples) are drained. " +
 			"Each iterator is driven for at most |expected|+1+3 calls of Next; every Value is copied at once and compared with a naive reference list (exact sequence where an order is documented, as a set otherwise), " +
 			"then three further Next calls must return false. non-trivial = the expected family has >= 2 objects and, for predicate-driven iterators, the predicate rejected at least one argument; distinct = hash of (constructor, parameters, predicate)",
 		Assumptions: []string{
@@ -41,6 +58,8 @@ func init() {
 			"termination inside one Next: a callback invoked more than 16 x (size of the whole unrestricted search tree + 64) times during a single Next is reported as runaway (bounded-progress restatement, decided by a call count, no clock); a Next that spins without calling back is left to the CPU watchdog (key|budget)",
 			"predicates are pure functions of the contents of their argument; less(i,j) is false for i >= j as the documentation asks",
 			"caller-owned arguments: Product, RestrictedPrefixProduct (source: deep copy of n in case it changes) and MultisetPermutations (expands freq into its own array) take a private copy, so overwriting or reusing the caller's slice after construction must not change the enumeration (judged); MultisetCombinations keeps the caller's m and nothing documents otherwise (recorded as not_judged:MultisetCombinations_aliases_m); returned values are overwritten only where the documentation allows it (Partitions, MultisetCombinations.Value)",
+			"a slice argument is an input: no constructor documents that it writes to its argument, so the library changing the caller's slice (or the caller's array behind it) is judged (argument-modified), and iterators built later from the same, untouched slice have to enumerate the family of the values the caller put there; a value handed out by Value / FreqValue / InverseValue has to stay the same object until its OWN iterator is advanced (advancing other iterators must not change it)",
+			"families too large to exhaust: only a prefix is judged. Where the order is documented the prefix is compared exactly with an independently generated reference prefix; where it is not (Product, RestrictedPrefixProduct, Permutations, PermutationsByPattern, TopologicalSorts, MultisetCombinations) any distinct members are accepted and only a non-member, a repeat or reported exhaustion is a violation; the cardinalities used to pick the cases are computed with math/big",
 			"nothing is demanded of Value() after exhaustion (it is not called); the block order inside Partitions values and the element order inside MultisetCombinations values are not judged",
 		},
 		Run:            run,
@@ -186,6 +205,14 @@ type kase struct {
 	mustPanic  bool // the parameter is outside the documented domain (documented to panic): recorded only
 	predDriven bool
 
+	// prefix of a family too large to exhaust whose order is not documented: the first prefixCount objects are judged by
+	// membership and distinctness (prefixOnly is set as well; want is unused)
+	member      func(canon []int) string // "" = a member of the family
+	prefixCount int
+	sizeNote    string  // why the family has more than prefixCount objects
+	likely      [][]int // the prefix in the order the library is seen to use today (recorded, never judged)
+	likelyName  string
+
 	mk             func(arg []int) iface // constructors that take a slice / variadic ints: construct from this caller-owned slice
 	scribbleValues bool                  // overwrite every returned Value (only where the documentation says that is safe)
 	recordOnly     string                // not judged: only record under this observation name whether the reference was matched
@@ -267,56 +294,96 @@ func (r *runner) violate(k *kase, kind, observed, expected string) {
 	r.c.Violation(k.api+"|"+kind+"|"+k.witness, d, observed, expected)
 }
 
+// stepper drives one iterator call by call: the enumeration (at most expected+1 successful calls of Next, every Value
+// copied at once), then three further calls after exhaustion was reported.  The single-iterator cases run one stepper to
+// its end inside one guarded call; the sessions of session.go schedule several of them.
+type stepper struct {
+	k        *kase
+	tr       *trace
+	it       iface
+	expected int
+	late     int
+	done     bool
+	// the slices last handed out by Value / the auxiliary view (NOT copies), to see whether driving OTHER iterators changes them
+	held, heldAux []int
+}
+
+func expectedOf(k *kase) int {
+	switch {
+	case k.convention:
+		return 1
+	case k.member != nil:
+		return k.prefixCount
+	}
+	return len(k.want)
+}
+
+// step makes one call of Next (and reads the value it announces); false = the life of this iterator is over.
+func (s *stepper) step() bool {
+	k, tr, it := s.k, s.tr, s.it
+	if s.done {
+		return false
+	}
+	tr.calls++
+	if !tr.exhausted {
+		tr.phase = fmt.Sprintf("Next call #%d", tr.calls)
+		k.mon.startNext()
+		if !it.next() {
+			tr.exhausted = true
+			s.held, s.heldAux = nil, nil
+			return true
+		}
+		tr.phase = fmt.Sprintf("Value after Next call #%d", tr.calls)
+		s.held = it.value()
+		tr.raw = append(tr.raw, cpInts(s.held))
+		if it.aux != nil {
+			tr.phase = fmt.Sprintf("%s after Next call #%d", k.auxName, tr.calls)
+			s.heldAux = it.aux()
+			tr.aux = append(tr.aux, cpInts(s.heldAux))
+		}
+		if k.prefixOnly && len(tr.raw) == s.expected {
+			tr.phase = "done (prefix only)"
+			s.done = true
+			return false
+		}
+		if len(tr.raw) > s.expected {
+			tr.over = true
+			s.done = true
+			return false
+		}
+		return true
+	}
+	s.late++
+	tr.phase = fmt.Sprintf("Next call #%d (call %d after exhaustion was reported)", tr.calls, s.late)
+	k.mon.startNext()
+	if it.next() {
+		tr.lateTrue = s.late
+		tr.phase = fmt.Sprintf("Value after Next call #%d", tr.calls)
+		tr.lateValue = cpInts(it.value())
+		s.done = true
+		return false
+	}
+	tr.further++
+	if s.late == 3 {
+		k.mon.startNext()
+		tr.phase = "done"
+		s.done = true
+		return false
+	}
+	return true
+}
+
 // drive runs the whole life of one iterator inside a guarded call.
 func (r *runner) drive(k *kase, tr *trace) *engine.PanicInfo {
-	expected := len(k.want)
-	if k.convention {
-		expected = 1
-	}
 	if k.mon != nil {
 		k.mon.phase = &tr.phase
 	}
 	return r.c.Call(k.api+"("+k.witness+")", func() {
 		tr.phase = "constructor"
-		it := k.build()
-		for {
-			tr.calls++
-			tr.phase = fmt.Sprintf("Next call #%d", tr.calls)
-			k.mon.startNext()
-			ok := it.next()
-			if !ok {
-				tr.exhausted = true
-				break
-			}
-			tr.phase = fmt.Sprintf("Value after Next call #%d", tr.calls)
-			tr.raw = append(tr.raw, cpInts(it.value()))
-			if it.aux != nil {
-				tr.phase = fmt.Sprintf("%s after Next call #%d", k.auxName, tr.calls)
-				tr.aux = append(tr.aux, cpInts(it.aux()))
-			}
-			if k.prefixOnly && len(tr.raw) == expected {
-				tr.phase = "done (prefix only)"
-				return
-			}
-			if len(tr.raw) > expected {
-				tr.over = true
-				return
-			}
+		s := &stepper{k: k, tr: tr, expected: expectedOf(k)}
+		s.it = k.build()
+		for s.step() {
 		}
-		for i := 1; i <= 3; i++ {
-			tr.calls++
-			tr.phase = fmt.Sprintf("Next call #%d (call %d after exhaustion was reported)", tr.calls, i)
-			k.mon.startNext()
-			if it.next() {
-				tr.lateTrue = i
-				tr.phase = fmt.Sprintf("Value after Next call #%d", tr.calls)
-				tr.lateValue = cpInts(it.value())
-				return
-			}
-			tr.further++
-		}
-		k.mon.startNext()
-		tr.phase = "done"
 	})
 }
 
@@ -329,6 +396,12 @@ func (r *runner) run(k *kase) {
 	c.Obs("cases:"+k.api, 1)
 	tr := &trace{}
 	pi := r.drive(k, tr)
+	r.judge(k, tr, pi)
+}
+
+// judge gives the verdict on one finished (or panicked) iterator life.
+func (r *runner) judge(k *kase, tr *trace, pi *engine.PanicInfo) {
+	c := r.c
 	if k.mon != nil {
 		c.Obs("callback_calls", int(k.mon.total))
 		c.Obs("callback_calls:"+k.api, int(k.mon.total))
@@ -385,7 +458,7 @@ func (r *runner) run(k *kase) {
 		want := "no panic"
 		if tr.exhausted {
 			want = "false (exhaustion already reported)"
-		} else if len(tr.raw) == len(k.want) && !k.convention {
+		} else if len(tr.raw) == len(k.want) && !k.convention && !k.prefixOnly {
 			want = "false (all objects have been yielded)"
 		}
 		r.violate(k, "panic@"+panicFunc(pi), fmt.Sprintf("%s at %s during %s; yielded before: %s", pi.Value, pi.Site, tr.phase, show(tr.raw, 6)), want)
@@ -430,6 +503,10 @@ func (r *runner) run(k *kase) {
 			}
 		}
 		got[i] = cv
+	}
+	if k.member != nil {
+		r.judgeMembers(k, tr, got)
+		return
 	}
 	wantIdx := make(map[string]int, len(want))
 	for i, w := range want {
@@ -520,6 +597,64 @@ func (r *runner) run(k *kase) {
 	if len(got) >= 4 || k.api == "Product" && len(got) >= 2 {
 		c.Sample(k.api, map[string]interface{}{"parameters": k.witness, "objects": len(got), "first": firstOf(tr.raw), "last": lastOf(tr.raw), "next_calls": tr.calls})
 	}
+}
+
+// judgeMembers: the first prefixCount objects of a family that is far too large to exhaust and whose order is not
+// documented.  Any prefixCount distinct members are right; what can be wrong is a non-member, a repeat, exhaustion
+// reported although the family has more objects than any run can visit, and an auxiliary view that disagrees.
+func (r *runner) judgeMembers(k *kase, tr *trace, got [][]int) {
+	c := r.c
+	seenAt := make(map[string]int, len(got))
+	for i, g := range got {
+		if why := k.member(g); why != "" {
+			r.violate(k, "not-in-family", fmt.Sprintf("object %d is %v: %s; %s", i, tr.raw[i], why, showAround(tr.raw, i, 2)), "only members of the family")
+			return
+		}
+		e := enc(g)
+		if j, dup := seenAt[e]; dup {
+			r.violate(k, "repeat", fmt.Sprintf("object %v yielded by Next calls #%d and #%d; %s", tr.raw[i], j+1, i+1, showAround(tr.raw, i, 2)), "every object exactly once")
+			return
+		}
+		seenAt[e] = i
+	}
+	if len(got) < k.prefixCount {
+		r.violate(k, "missing", fmt.Sprintf("exhaustion reported after %d objects; %s", len(got), showAround(tr.raw, len(tr.raw)-1, 3)),
+			fmt.Sprintf("at least %d objects (%s)", k.prefixCount, k.sizeNote))
+		return
+	}
+	if k.likely != nil {
+		same := len(k.likely) >= len(got)
+		for i := 0; same && i < len(got); i++ {
+			same = enc(got[i]) == enc(k.likely[i])
+		}
+		if same {
+			c.Obs("undocumented_order_seen_on_a_prefix:"+k.api+":"+k.likelyName, 1)
+		} else {
+			c.Obs("undocumented_order_seen_on_a_prefix:"+k.api+":other", 1)
+		}
+	}
+	c.Obs("objects_compared", len(got))
+	if k.auxCheck != nil {
+		for i := range got {
+			if why := k.auxCheck(got[i], tr.aux[i]); why != "" {
+				r.violate(k, k.auxName+"-mismatch", fmt.Sprintf("object %d: Value %v, %s %v: %s", i, tr.raw[i], k.auxName, tr.aux[i], why), k.auxName+" describes the same object as Value")
+				return
+			}
+		}
+		c.Obs("aux_values_checked", len(got))
+	}
+	if k.mon != nil && k.mon.illegal != "" {
+		r.violate(k, "illegal-callback-argument", k.mon.illegal, "only arguments of the documented form")
+		return
+	}
+	c.Obs("prefix_only_cases:"+k.api, 1)
+	if maxOf(firstOf(tr.raw)) >= 64 || len(firstOf(tr.raw)) > 64 {
+		c.Obs("cases_with_more_than_64_positions_or_values:"+k.api, 1)
+	}
+	if !k.predDriven || (k.mon != nil && k.mon.rejected > 0) {
+		c.NT(k.api, k.witness)
+	}
+	c.Sample(k.api+" (prefix of a huge family)", map[string]interface{}{"parameters": k.witness, "objects": len(got), "first": firstOf(tr.raw), "last": lastOf(tr.raw), "next_calls": tr.calls})
 }
 
 // panicFunc names the innermost library function on the stack of a panic
@@ -625,11 +760,16 @@ func colexCase(n, k int) *kase {
 		}}
 }
 
-func multisetCombinationsCase(m []int, k int) *kase {
-	freqs := refiter.MultisetCombinationsFreq(m, k)
-	want := make([][]int, len(freqs))
-	for i, f := range freqs {
-		want[i] = refiter.FreqToMultiset(f)
+func multisetCombinationsCase(m []int, k int) *kase { return multisetCombinationsCaseWith(m, k, nil) }
+
+// multisetCombinationsCaseWith: want = the reference list if the caller has computed it for (m,k) before (nil: compute it).
+func multisetCombinationsCaseWith(m []int, k int, want [][]int) *kase {
+	if want == nil {
+		freqs := refiter.MultisetCombinationsFreq(m, k)
+		want = make([][]int, len(freqs))
+		for i, f := range freqs {
+			want[i] = refiter.FreqToMultiset(f)
+		}
 	}
 	mm := cpInts(m)
 	var ck *kase
@@ -687,6 +827,13 @@ func lexPermutationsCase(n int) *kase {
 }
 
 func multisetPermutationsCase(freq []int) *kase {
+	k := multisetPermutationsKase(freq)
+	k.want = refiter.MultisetPermutations(freq)
+	return k
+}
+
+// multisetPermutationsKase: the case without its reference list.
+func multisetPermutationsKase(freq []int) *kase {
 	tot := 0
 	for _, f := range freq {
 		tot += f
@@ -696,7 +843,7 @@ func multisetPermutationsCase(freq []int) *kase {
 		it := itertools.MultisetPermutations(arg)
 		return iface{next: func() bool { return it.Next() }, value: func() []int { return it.Value() }}
 	}
-	return &kase{api: "MultisetPermutations", mk: mk, witness: "freq=" + vecName(freq), want: refiter.MultisetPermutations(freq), convention: tot == 0, convKey: "all frequencies zero",
+	return &kase{api: "MultisetPermutations", mk: mk, witness: "freq=" + vecName(freq), convention: tot == 0, convKey: "all frequencies zero",
 		ordered: true, orderName: "lexicographic", detail: map[string]interface{}{"freq": ff},
 		build: func() iface { return mk(cpInts(ff)) }}
 }
@@ -704,6 +851,15 @@ func multisetPermutationsCase(freq []int) *kase {
 // Partitions: Value is [][]int; it is flattened (blocks terminated by -1) inside the call and turned into
 // the restricted growth string of the partition by the oracle afterwards.
 func partitionsCase(n int) *kase {
+	k := partitionsKase(n)
+	if n >= 1 {
+		k.want = refiter.RestrictedGrowthStrings(n)
+	}
+	return k
+}
+
+// partitionsKase: the case without its reference list.
+func partitionsKase(n int) *kase {
 	var k *kase
 	k = &kase{api: "Partitions", witness: fmt.Sprintf("n=%d", n), ordered: true, orderName: "lexicographic (restricted growth strings)",
 		mustPanic: n < 1,
@@ -746,9 +902,6 @@ func partitionsCase(n int) *kase {
 				return flat
 			}}
 		}}
-	if n >= 1 {
-		k.want = refiter.RestrictedGrowthStrings(n)
-	}
 	return k
 }
 
@@ -800,6 +953,13 @@ func wrap(m *cbMon, p pred, legal func(a []int) string) func([]int) bool {
 }
 
 func restrictedProductCase(d []int, p pred) *kase {
+	k := restrictedProductKase(d, p)
+	k.want = refiter.FilterPrefixes(refiter.Product(d), p.f)
+	return k
+}
+
+// restrictedProductKase: the case without its reference list.
+func restrictedProductKase(d []int, p pred) *kase {
 	dd := cpInts(d)
 	nodes := int64(0)
 	prod := int64(1)
@@ -828,7 +988,6 @@ func restrictedProductCase(d []int, p pred) *kase {
 		return iface{next: func() bool { return it.Next() }, value: func() []int { return it.Value() }}
 	}
 	return &kase{api: "RestrictedPrefixProduct", mk: mk, witness: fmt.Sprintf("factors=%s,pred=%s", vecName(d), p.name), mon: m, predDriven: true,
-		want:   refiter.FilterPrefixes(refiter.Product(d), p.f),
 		detail: map[string]interface{}{"factors": dd, "predicate": p.name},
 		build:  func() iface { return mk(cpInts(dd)) }}
 }
@@ -864,6 +1023,14 @@ func restrictedPermutationsCase(n int, all [][]int, p pred) *kase {
 }
 
 func patternCase(n int, p pred) *kase {
+	k := patternKase(n, p)
+	// the reference follows the documented DFS literally
+	k.want = lexSorted(refiter.PatternDFS(n, p.f))
+	return k
+}
+
+// patternKase: the case without its reference list.
+func patternKase(n int, p pred) *kase {
 	nodes, t := int64(0), int64(1)
 	for l := 1; l <= n && nodes < 1<<40; l++ {
 		t *= int64(l)
@@ -879,9 +1046,7 @@ func patternCase(n int, p pred) *kase {
 		}
 		return ""
 	})
-	// the reference follows the documented DFS literally
 	return &kase{api: "PermutationsByPattern", witness: fmt.Sprintf("n=%d,pred=%s", n, p.name), mon: m, predDriven: true, convention: n == 0, convKey: "n=0",
-		want:   lexSorted(refiter.PatternDFS(n, p.f)),
 		detail: map[string]interface{}{"n": n, "predicate": p.name},
 		build: func() iface {
 			it := itertools.PermutationsByPattern(n, f)
@@ -1222,4 +1387,6 @@ func run(c *engine.Ctx) {
 
 	runLarge(c)
 	runOwned(c)
+	runSessions(c)
+	runHuge(c)
 }
